@@ -25,7 +25,7 @@ ASSUMPTIONS = [
     're-assigning the identical object may raise or not; only "the held object did not change" is required',
 ]
 REQUIRED = {'forbidden_attempts': 3000, 'blocks': 500, 'blocks_raised': 100, 'flag_probes': 2000, 'ctor_constant_reference': 50,
-            'ctor_constant_pending_reference': 50, 'library_attempts': 100, 'async_attempts': 100, 'observer_calls': 100}
+            'ctor_constant_pending_reference': 50, 'library_attempts': 100, 'async_attempts': 100, 'observer_calls': 100, 'class_blocks': 50}
 
 _st = {}
 
@@ -457,6 +457,45 @@ def run_case(idx, rng, P, rep):
                     if tainted(i):
                         key += FOREIGN
                     viol(key, f'inst{i}.param.{p}.constant is {pobj.constant} outside any block')
+            elif c < 0.74 and depth_ == 0 and not open_blocks:
+                # edit_constant on a CLASS: whatever is done inside, every flag - also of Parameter copies made meanwhile
+                # (instance-level copies, subclass-level copies) - is restored on exit
+                kinds.append('class_block')
+                rep.count('class_blocks')
+                K = rng.choice(classes)
+                boom = rng.random() < 0.3
+                trace.append(('class-block-enter', K.__name__, 'raises' if boom else ''))
+                try:
+                    with edit_constant(K):
+                        for _ in range(rng.randint(1, 4)):
+                            j = rng.randrange(len(insts))
+                            what = rng.choice(['set', 'update', 'touch', 'class_set', 'ctor'])
+                            p = rng.choice(['c', 'cl', 'cn'])
+                            trace.append(('in-class-block', what, f'inst{j}', p))
+                            try:
+                                if what == 'set':
+                                    setattr(insts[j], p, new_value(p))
+                                elif what == 'update':
+                                    insts[j].param.update(**{p: new_value(p)})
+                                elif what == 'touch':
+                                    insts[j].param[p]
+                                elif what == 'class_set':
+                                    setattr(rng.choice(classes), p, new_value(p))
+                                elif len(insts) < 5:
+                                    add_instance(rng.choice(classes))
+                            except TypeError:
+                                pass        # whether an instance may be edited inside a class-level block is not stated
+                            for jj in range(len(insts)):
+                                for pp in CONST:
+                                    held[jj][pp] = getattr(insts[jj], pp)
+                        if boom:
+                            raise Boom()
+                except Boom:
+                    rep.count('blocks_raised')
+                trace.append(('class-block-exit', K.__name__))
+                class_flags(f'after edit_constant({K.__name__})')
+                for jj in range(len(insts)):
+                    flag_probe(jj)
             elif c < 0.9 and depth_ < 3:
                 kinds.append('block')
                 boom = rng.random() < 0.3
